@@ -277,9 +277,9 @@ def _func(name):
     return h
 
 
-reg('FUNC', 'num_traits::Float::ln', 'burn::tensor::Tensor::log')(_func('ln'))
-reg('FUNC', 'num_traits::Float::exp', 'burn::tensor::Tensor::exp')(_func('exp'))
-reg('FUNC', 'num_traits::Float::sqrt', 'burn::tensor::Tensor::sqrt', 'ndarray::ArrayBase::sqrt')(_func('sqrt'))
+reg('FUNC', 'num_traits::Float::ln', 'burn::tensor::Tensor::log', 'f32::ln', 'f64::ln', 'std::f32::ln', 'std::f64::ln')(_func('ln'))
+reg('FUNC', 'num_traits::Float::exp', 'burn::tensor::Tensor::exp', 'f32::exp', 'f64::exp', 'std::f32::exp', 'std::f64::exp')(_func('exp'))
+reg('FUNC', 'num_traits::Float::sqrt', 'burn::tensor::Tensor::sqrt', 'ndarray::ArrayBase::sqrt', 'f32::sqrt', 'f64::sqrt', 'core::f32::sqrt', 'core::f64::sqrt', 'std::f32::sqrt', 'std::f64::sqrt')(_func('sqrt'))
 reg('FUNC', 'num_traits::Float::abs', 'burn::tensor::Tensor::abs', 'num_traits::Signed::abs')(_func('abs'))
 reg('FUNC', 'rustfft::num_complex::Complex::conj')(_func('conj'))
 reg('FUNC', 'burn::tensor::Tensor::is_nan')(_func('is_nan'))
@@ -388,10 +388,37 @@ def h_inplace(vf, node, fn, args):
     return vf.default_call('inplace', args, node, fn)
 
 
+ELEMENTWISE = ('sqrt', 'ln', 'exp', 'abs', 'inv', 'pow', 'powi', 'conj')
+
+
+def _elementwise_body(body, bv):
+    """the lambda body is arithmetic applied to the bound element only (polynomials, sqrt/ln/exp/abs, constants): mapping it over an
+    array is the same arithmetic applied to the array (the term algebra already reads array arithmetic element-wise)"""
+    for t in T.subterms(body):
+        k = t[0]
+        if k in ('num', 'poly') or t is bv:
+            continue
+        if k == 'sym':
+            continue            # captured scalars (loop-invariant constants) broadcast
+        if k == 'app' and t[1] in ELEMENTWISE:
+            continue
+        return False
+    return True
+
+
 @reg('SHAPE', 'ndarray::ArrayBase::mapv', 'ndarray::ArrayBase::map')
 def h_mapv(vf, node, fn, args):
     c = vf.deref(args[1])
     x = tt(vf, args[0])
+    bv = T.sym(vf.fresh('k#'))
+    body = None
+    if isinstance(c, Clos):
+        body = tt(vf, vf.apply_closure(c, [bv]))
+    else:
+        r = vf.apply_fn_item(tt(vf, c), [bv], node)
+        body = tt(vf, r) if r is not None else None
+    if body is not None and _elementwise_body(body, bv):
+        return T.subst(body, {bv: x})
     if isinstance(c, Clos):
         return T.app('mapv', x, lam_term(vf, c, 1))
     return T.app('mapv', x, tt(vf, c))
